@@ -235,8 +235,22 @@ def merged_case(ctx, d, rng, k):
     shutil.rmtree(out, ignore_errors=True)
     try:
         m2 = EphysAlfCreator(m).convert(out, label='', ampfactor=1.0)
+        comp = []
         if m2 is not None:
-            m2.close()
+            # composition merge -> export -> load (C11 + C13 + C04): the reloaded ALF dataset shows the union of
+            # the probes' spikes, in merged order, with the merged ids and geometry
+            try:
+                if not (np.array_equal(m2.spike_samples, m.spike_samples) and np.array_equal(m2.spike_times, m.spike_times)
+                        and np.array_equal(m2.spike_clusters, m.spike_clusters)
+                        and np.array_equal(m2.spike_templates, m.spike_templates)
+                        and np.array_equal(m2.channel_positions, m.channel_positions)
+                        and np.array_equal(m2.channel_probes, m.channel_probes)):
+                    comp.append('the reloaded export of the merged dataset differs from the merged dataset')
+                all_times = np.sort(np.concatenate([np.asarray(x['samples']) for x in dss]))
+                if not np.array_equal(np.asarray(m2.spike_samples, dtype=np.int64), all_times):
+                    comp.append('the reloaded export does not hold the union of the probes\' spikes')
+            finally:
+                m2.close()
         wmi = np.linalg.inv(np.asarray(m.wm))
         ds_all = dict(rate=1024, wmi_eff=wmi, pcf=None)
         global NCLOSEST
@@ -247,6 +261,7 @@ def merged_case(ctx, d, rng, k):
         finally:
             NCLOSEST = old
         rec['_kind'] = 'merged%d' % K
+        rec['_comp'] = comp
         rec['_short'] = K > 1 and min(len(x['chmap']) for x in dss) < ncl_width
     finally:
         m.close()
@@ -276,7 +291,7 @@ def run(ctx, prop):
         raise MachineryError('read %d of %d cases' % (len(cases), n))
     rng = np.random.RandomState(ctx.seed + 13)
     recs = []
-    reps = 2 if ctx.quick else 12
+    reps = 4 if ctx.quick else 24
     with tmp_dir(ctx) as d:
         k = 0
         for rep in range(reps):
@@ -297,7 +312,7 @@ def run(ctx, prop):
                         ctx.violation(key, msg, dict(case=case, k=k))
                 rec['id'] = len(recs) + 1
                 recs.append(rec)
-        for j in range(12 if ctx.quick else 120):
+        for j in range(40 if ctx.quick else 300):
             rec = None
             with ctx.guard(prop + '.merged', dict(j=j)):
                 rec = merged_case(ctx, d, rng, j)
@@ -305,6 +320,9 @@ def run(ctx, prop):
                 return
             if rec is not None:
                 ctx.traces += 1
+                for msg in rec.pop('_comp', []):
+                    if prop == 'C13':
+                        ctx.violation('C13.composition', msg, dict(merged=j))
                 rec['id'] = len(recs) + 1
                 recs.append(rec)
     if not recs:
